@@ -1,156 +1,21 @@
-"""Implementation side of unit C19_motor: drives the real Reduino.Actuators.Servo /
-DCMotor classes on JSON cases (stdin) and prints JSON (stdout).
-
-Values are tagged lists: ["i", n] int | ["f", num, den] float (exact ratio) | ["b", v] bool |
-["o"] None | ["s", text] str | ["t", [..]] tuple | ["x", repr] non-finite float | ["?", repr].
-An omitted optional argument is JSON null.
-
-case   = {"cls": "servo"|"motor", "ctor": [values or null], "ops": [[name, value...], ...]}
-result = {"ctor": ["ok", snapshot] | ["raise", exc_name],
-          "steps": [{"res": "ok"|"raise", "ret": value | exc_name, "snap": {attr: value},
-                     "events": [["lvl", ...] | ["sleep", value]], "get": {getter: value}}]}
-
-Sleeps are recorded by replacing the package-level ``Reduino.Actuators.sleep`` (what
-tests/test_actuators.py monkeypatches; DCMotor._sleep looks it up at call time).  Level
-events (DESIGN.md A.2) are recorded by wrapping Servo.write / write_us and
-DCMotor._apply_speed / stop / coast in this process only; an event is appended when the
-wrapped call completes.  "get" holds what the public getters return after the call.
-"""
-import functools
-import json
-import math
-import sys
-
-import Reduino.Actuators as A
+"""Implementation side of unit C19_motor: the real Reduino.Actuators.DCMotor.DCMotor on JSON cases
+(protocol and recording: c19_sm_runner.py).  Level events: one per completed
+_apply_speed / stop / coast; sleeps through the package-level Reduino.Actuators.sleep."""
+import c19_sm_runner as R
 from Reduino.Actuators.DCMotor import DCMotor
-from Reduino.Actuators.Servo import Servo
-
-EVENTS = []
-
-
-def enc(v):
-    if isinstance(v, bool):
-        return ["b", v]
-    if isinstance(v, int):
-        return ["i", v]
-    if isinstance(v, float):
-        if not math.isfinite(v):
-            return ["x", repr(v)]
-        n, d = v.as_integer_ratio()
-        return ["f", n, d]
-    if v is None:
-        return ["o"]
-    if isinstance(v, str):
-        return ["s", v]
-    if isinstance(v, tuple):
-        return ["t", [enc(x) for x in v]]
-    return ["?", repr(v)[:80]]
-
-
-def dec(t):
-    k = t[0]
-    if k == "i":
-        return int(t[1])
-    if k == "f":
-        return int(t[1]) / int(t[2])      # exact: generators send dyadic rationals
-    if k == "b":
-        return bool(t[1])
-    if k == "o":
-        return None
-    if k == "s":
-        return t[1]
-    raise ValueError(f"cannot decode {t!r}")
-
-
-def fake_sleep(duration, *, sleep_func=None):
-    EVENTS.append(["sleep", enc(duration)])
-
-
-A.sleep = fake_sleep
-
-
-def wrap(cls, name, snap):
-    orig = cls.__dict__[name]
-
-    @functools.wraps(orig)
-    def wrapper(self, *a, **kw):
-        r = orig(self, *a, **kw)
-        EVENTS.append(["lvl"] + snap(self))
-        return r
-
-    setattr(cls, name, wrapper)
-
-
-def servo_lvl(s):
-    return [enc(s._current_angle), enc(s._current_pulse)]
 
 
 def motor_lvl(m):
-    return [enc(m._speed), enc(m._applied_speed), enc(m._mode)]
+    return [R.enc(m._speed), R.enc(m._applied_speed), R.enc(m._mode)]
 
 
-wrap(Servo, "write", servo_lvl)
-wrap(Servo, "write_us", servo_lvl)
-wrap(DCMotor, "_apply_speed", motor_lvl)
-wrap(DCMotor, "stop", motor_lvl)
-wrap(DCMotor, "coast", motor_lvl)
-
-SERVO_KW = ["min_angle", "max_angle", "min_pulse_us", "max_pulse_us"]
-SERVO_GET = ["read", "read_us"]
-MOTOR_GET = ["get_speed", "get_applied_speed", "is_inverted", "get_mode"]
+R.wrap(DCMotor, "_apply_speed", motor_lvl)
+R.wrap(DCMotor, "stop", motor_lvl)
+R.wrap(DCMotor, "coast", motor_lvl)
 
 
-def snapshot(obj):
-    return {k: enc(v) for k, v in sorted(vars(obj).items())}
+def build(c):
+    return DCMotor(*[R.dec(v) for v in c])
 
 
-def getters(obj, names):
-    out = {}
-    for n in names:
-        try:
-            out[n] = enc(getattr(obj, n)())
-        except Exception as e:  # noqa
-            out[n] = ["?", "raised " + type(e).__name__]
-    return out
-
-
-def build(case):
-    c = case["ctor"]
-    if case["cls"] == "servo":
-        args = [] if c[0] is None else [dec(c[0])]
-        kw = {k: dec(v) for k, v in zip(SERVO_KW, c[1:]) if v is not None}
-        return Servo(*args, **kw), SERVO_GET
-    return DCMotor(*[dec(v) for v in c]), MOTOR_GET
-
-
-def run_case(case):
-    del EVENTS[:]
-    try:
-        obj, gnames = build(case)
-    except Exception as e:  # noqa
-        return {"ctor": ["raise", type(e).__name__], "steps": []}
-    del EVENTS[:]
-    out = {"ctor": ["ok", snapshot(obj)], "get0": getters(obj, gnames), "steps": []}
-    for op in case["ops"]:
-        name, args = op[0], [dec(a) for a in op[1:]]
-        del EVENTS[:]
-        try:
-            r = getattr(obj, name)(*args)
-            step = {"res": "ok", "ret": enc(r)}
-        except Exception as e:  # noqa
-            step = {"res": "raise", "ret": type(e).__name__}
-        step["events"] = list(EVENTS)
-        del EVENTS[:]
-        step["snap"] = snapshot(obj)
-        step["get"] = getters(obj, gnames)
-        del EVENTS[:]
-        out["steps"].append(step)
-    return out
-
-
-def main():
-    req = json.load(sys.stdin)
-    sys.stdout.write(json.dumps([run_case(c) for c in req["cases"]]))
-
-
-main()
+R.main("motor", build, ["get_speed", "get_applied_speed", "is_inverted", "get_mode"])
